@@ -433,6 +433,31 @@ def lifecycle_histories(rng, tier, observe, sizes=(0, 1, 2, 3, 4), threads_frac=
     return hs
 
 
+def oracle_draws(acts, recs):
+    """C07 / C08: the normal deviates behind a histogram are drawn independently for every outcome, however the work
+    is split: two outcomes of non-negligible probability never receive the bit-identical deviate (for continuous
+    draws that has probability 0; a generator cloned into every work piece produces exactly that)."""
+    fails = []
+    p = None
+    for r in recs:
+        if r[0] == "d":
+            n, v = r[1], r[2]
+            tot = sum(abs(z) ** 2 for z in v[:1 << n]) or 1.0
+            p = [abs(z) ** 2 / tot for z in v[:1 << n]]
+        elif r[0] == "h" and p is not None and len(r) > 2 and len(r[2]) == len(p) and len(p) >= 4:
+            seen = {}
+            for i, (pi, x) in enumerate(zip(p, r[2])):
+                if pi < 1e-6 or x == 0:
+                    continue
+                g = x / math.sqrt(pi)
+                key = "%.13e" % g
+                if key in seen and abs(seen[key][1] - g) <= 1e-12 * max(1.0, abs(g)):
+                    fails.append("outcomes %d and %d received the same normal deviate %r" % (seen[key][0], i, g))
+                    break
+                seen[key] = (i, g)
+    return fails
+
+
 def oracle_views(acts, recs):
     """C20 / C14: the full range of the register's view is 2^n - 1, and a view by a mask exists exactly when the
     mask lies inside the register (and then lists exactly the mask's bits)."""
